@@ -99,8 +99,23 @@ DS_BIN = {
     "mod": (lambda a, b: a % b, lambda x, y, w: None if y == 0 else x % y),
     "shl": (lambda a, b: a << b, vsa.c_shl),
     "ashr": (lambda a, b: a >> b, vsa.c_ashr),
+    "mul": (lambda a, b: a * b, lambda x, y, w: (x * y) & M(w)),
+    "lshr": (lambda a, b: a.LShR(b), vsa.c_lshr),
 }
+# reflected operations: an interval (first operand of the expression) with a set; the Python protocol lands in DSIS.__rsub__ etc.
+DS_RBIN = {
+    "rsub": (lambda a, b: b - a, lambda x, y, w: (y - x) & M(w)),
+    "radd": (lambda a, b: b + a, lambda x, y, w: (y + x) & M(w)),
+    "rmul": (lambda a, b: b * a, lambda x, y, w: (y * x) & M(w)),
+    "rudiv": (lambda a, b: b // a, lambda x, y, w: None if x == 0 else y // x),
+    "rmod": (lambda a, b: b % a, lambda x, y, w: None if x == 0 else y % x),
+}
+DS_QUERY = ("min", "max", "smin", "smax", "hull", "bk")
 DS_CMP = {
+    "SLT": (lambda a, b: a.SLT(b), lambda x, y, w: sgn(x, w) < sgn(y, w)),
+    "SLE": (lambda a, b: a.SLE(b), lambda x, y, w: sgn(x, w) <= sgn(y, w)),
+    "SGT": (lambda a, b: a.SGT(b), lambda x, y, w: sgn(x, w) > sgn(y, w)),
+    "SGE": (lambda a, b: a.SGE(b), lambda x, y, w: sgn(x, w) >= sgn(y, w)),
     "eq": (lambda a, b: a == b, lambda x, y, w: x == y),
     "ne": (lambda a, b: a != b, lambda x, y, w: x != y),
     "ULT": (lambda a, b: a.ULT(b), lambda x, y, w: x < y),
@@ -131,6 +146,10 @@ def ds_case_real(op, A, B=None, extra=()):
         return call(DS_UN[op][0], obj(A))
     if op in DS_SET:
         return call(DS_SET[op], obj(A), obj(B))
+    if op in DS_RBIN:
+        return call(DS_RBIN[op][0], obj(A), obj(B))
+    if op in DS_QUERY:
+        return ds_query_real(op, obj(A), A)
     if op == "collapse":
         return call(lambda a: a.collapse(), obj(A))
     if op == "normalize":
@@ -147,6 +166,38 @@ def ds_case_real(op, A, B=None, extra=()):
         return call(lambda a: a.extract(extra[0], extra[1]), obj(A))
     if op == "concat":
         return call(lambda a, b: a.concat(b), obj(A), obj(B))
+    raise KeyError(op)
+
+
+def ds_query_real(op, a, A):
+    """queries on a set: min/max (unsigned, signed), the hull attributes, and the same through the AST / backend API"""
+    try:
+        if op == "min":
+            return ("val", a.min())
+        if op == "max":
+            return ("val", a.max())
+        if op == "smin":
+            return ("val", a.min(signed=True))
+        if op == "smax":
+            return ("val", a.max(signed=True))
+        if op == "hull":
+            return ("val", (a.lower_bound, a.upper_bound))
+        if op == "bk":
+            import claripy
+            from claripy.backends.backend_vsa import strided_interval as si_mod
+            with si_mod._allow_dsis(True):
+                u = None
+                for (w, st, lb, ub) in A[2]:
+                    e = claripy.SI(bits=w, stride=st, lower_bound=lb, upper_bound=ub)
+                    u = e if u is None else u.union(e)
+                B = claripy.backends.vsa
+                sol = claripy.SolverVSA()
+                return ("val", (B.min(u), B.max(u), B.min(u, signed=True), B.max(u, signed=True), tuple(sorted(B.eval(u, 300))),
+                                sol.min(u), sol.max(u), type(B.convert(u)).__name__))
+    except RecursionError:
+        return ("err", "RecursionError")
+    except Exception as e:  # noqa
+        return ("err", type(e).__name__)
     raise KeyError(op)
 
 
@@ -174,6 +225,45 @@ def ds_oracle(op, A, B, extra, r):
                 v = "T" if c(x, y, w) else "F"
                 if v not in r[1]:
                     return ("unsound", "x=%d y=%d gives %s, result {%s}" % (x, y, v, r[1]))
+        return None
+    if op in DS_QUERY:
+        if r[0] != "val":
+            return ("malformed", "%s returned %r" % (op, r))
+        v = r[1]
+        sg = [sgn(x, w) for x in ga]
+        if op == "min" and not (isinstance(v, int) and v <= min(ga)):
+            return ("wrong", "min() = %r but %d is a member" % (v, min(ga)))
+        if op == "max" and not (isinstance(v, int) and v >= max(ga)):
+            return ("wrong", "max() = %r but %d is a member" % (v, max(ga)))
+        if op == "smin" and not (isinstance(v, int) and v <= min(sg)):
+            return ("wrong", "min(signed) = %r but %d is a member" % (v, min(sg)))
+        if op == "smax" and not (isinstance(v, int) and v >= max(sg)):
+            return ("wrong", "max(signed) = %r but %d is a member" % (v, max(sg)))
+        if op == "hull":
+            lo, hi = v
+            out = [x for x in ga if ((x - lo) & M(w)) > ((hi - lo) & M(w))]
+            if out:
+                return ("wrong", "lower_bound/upper_bound = [%d, %d] do not enclose the member %d" % (lo, hi, out[0]))
+        if op == "bk":
+            mn, mx, smn, smx, ev, smin_, smax_, kind = v
+            if mn > min(ga) or mx < max(ga) or smn > min(sg) or smx < max(sg) or smin_ > min(ga) or smax_ < max(ga):
+                return ("wrong", "backend min/max/signed min/signed max/solver min/max = %r on a %s with members %d..%d (signed %d..%d)" % (
+                    (mn, mx, smn, smx, smin_, smax_), kind, min(ga), max(ga), min(sg), max(sg)))
+            if exhaustive(A) and len(ga) <= 300:
+                if not ga <= set(ev):
+                    return ("wrong", "backend eval misses the member %d" % sorted(ga - set(ev))[0])
+                if kind == "DiscreteStridedIntervalSet" and set(ev) != ga:
+                    return ("wrong", "backend eval of the set lists the non-member %d" % sorted(set(ev) - ga)[0])
+        return None
+    if op in DS_RBIN:
+        if r[0] not in ("si", "dsis"):
+            return ("malformed", "unexpected result %r" % (r,))
+        c = DS_RBIN[op][1]
+        for x in ga:
+            for y in gb:
+                z = c(x, y, w)
+                if z is not None and not res_member(r, z):
+                    return ("unsound", "set value x=%d, interval value y=%d: %d missing" % (x, y, z))
         return None
     if op == "cardinality":
         if r[0] != "val" or not isinstance(r[1], int) or r[1] < len(ga):
@@ -264,6 +354,8 @@ def vs_real(op, A, B=None, extra=()):
     def obj(X):
         return mk_vs(X[1], X[2]) if X[0] == "v" else vsa.mk(X[1])
     a = obj(A)
+    if op.startswith("hist_"):
+        return vs_hist_real(op, A, B)
     if op in VS_OPS_SI:
         return call(VS_OPS_SI[op][0], a, obj(B))
     if op == "subvs":
@@ -287,6 +379,50 @@ def vs_real(op, A, B=None, extra=()):
     raise KeyError(op)
 
 
+VS_HIST = {"union": lambda a, b: a.union(b), "intersection": lambda a, b: a.intersection(b), "widen": lambda a, b: a.widen(b),
+           "sub": lambda a, b: a - b, "mod": lambda a, b: a % b, "and": lambda a, b: a & b, "add": lambda a, b: a + b}
+
+
+def vs_hist_real(op, A, B):
+    """a history, as an analysis produces it: look at the operands (cardinality, eval), combine them, look at the result.
+    Returned: for the object level and for the AST / backend level, the cardinality the result reports and the number of
+    offsets its regions hold (plus single-/multi-valuedness as the backend reports it)."""
+    import claripy
+    fn = VS_HIST[op[5:]]
+    try:
+        a = mk_vs(A[1], A[2])
+        b = mk_vs(B[1], B[2]) if B[0] == "v" else vsa.mk(B[1])
+        _ = (a.cardinality, len(a), a.is_empty, a.eval(4))
+        _ = b.cardinality
+        r = fn(a, b)
+        if isinstance(r, VS()):
+            obj = (r.cardinality, sum(si.cardinality for si in r.regions.values()), len(r))
+        else:
+            obj = (r.cardinality, r.cardinality, len(r))
+        Bk = claripy.backends.vsa
+
+        def ast_of(X):
+            if X[0] == "s":
+                w, st, lb, ub = X[1]
+                return claripy.SI(bits=w, stride=st, lower_bound=lb, upper_bound=ub)
+            u = None
+            for reg, (w, st, lb, ub) in X[2].items():
+                e = claripy.ValueSet(w, reg, 0, claripy.SI(bits=w, stride=st, lower_bound=lb, upper_bound=ub))
+                u = e if u is None else u.union(e)
+            return u
+        aa, bb = ast_of(A), ast_of(B)
+        _ = (Bk.cardinality(aa), Bk.cardinality(bb), Bk.eval(aa, 4))
+        u = fn(aa, bb)
+        m = Bk.convert(u)
+        held = sum(si.cardinality for si in m.regions.values()) if isinstance(m, VS()) else m.cardinality
+        ast = (Bk.cardinality(u), held, bool(Bk.singlevalued(u)), bool(Bk.multivalued(u)), len(Bk.eval(u, 4096)))
+        return ("val", (obj, ast))
+    except RecursionError:
+        return ("err", "RecursionError")
+    except Exception as e:  # noqa
+        return ("err", type(e).__name__)
+
+
 def vs_region_member(c, region, x):
     """c canonical ('vs', bits, ((region, tuple), ...), si)"""
     for r, t in c[2]:
@@ -301,6 +437,16 @@ def vs_oracle(op, A, B, extra, r):
     if op in ("min", "max") and len(regs) != 1:
         # documented: only defined for single-region value sets (raises ClaripyVSAOperationError otherwise)
         return None if r == ("err", "ClaripyVSAOperationError") else ("wrong", "multi-region %s returned %r" % (op, r))
+    if op.startswith("hist_"):
+        if r[0] == "err":
+            # the operations raise on the same operands without the preceding queries (checked by the plain cases)
+            return None
+        (card, held, ln), (acard, aheld, single, multi, nev) = r[1]
+        if card != held:
+            return ("wrong", "after reading the operands' cardinality, the result reports cardinality %d but its regions hold %d offsets" % (card, held))
+        if acard != aheld or nev > acard or single != (acard == 1) or multi != (acard > 1):
+            return ("wrong", "backend: cardinality %d, regions hold %d offsets, eval lists %d, singlevalued %s, multivalued %s" % (acard, aheld, nev, single, multi))
+        return None
     if r[0] == "err":
         return ("err:" + r[1], "raises " + r[1])
     if op in VS_OPS_SI:
